@@ -39,7 +39,8 @@ ASSUMPTIONS = [
     "the caller does not write into containers / FractionValues it handed to a value object (the objects keep "
     "references by design); object attributes outside value/unit/category/dimension/container (Array's "
     "validity memo) are not part of the property",
-    "numpy elementwise semantics = map/zipWith over exact rationals; values are finite, NaN-free floats; "
+    "numpy elementwise semantics = map/zipWith over exact rationals; values are finite, NaN-free floats, compared "
+    "within 2**20 eps * M plus the distance inherited from the operands (accuracy itself is C01-C04's business); "
     "tuple-of-tuples Arrays are not generated",
     "Fraction's 1e-8 numerator rounding (Fraction.__init__ loop) is C18's; the model keeps exact rationals and "
     "fraction parts are compared within 2e-8",
@@ -730,16 +731,17 @@ def impl(c, ctx):
 
 
 EPS = F(1, 2 ** 53)
+TOL = 2 ** 20 * EPS      # ~1.2e-10: numbers are a sanity tie here (their accuracy is C01-C04's business)
 
 
 def _num_ok(real_hex, model_q, M, extra=0):
-    """|real - exact| <= (1024 eps + extra) * max(M, |exact|); `extra` = the relative distance already observed
+    """|real - exact| <= (2**20 eps + extra) * max(M, |exact|); `extra` = the relative distance already observed
     between the float operands and their exact counterparts (it is inherited by the result)"""
     r = float.fromhex(real_hex)
     if r != r or r in (float("inf"), float("-inf")):
         return False
     y = qparse(model_q)
-    return abs(F(*r.as_integer_ratio()) - y) <= (1024 * EPS + extra) * max(abs(F(M)), abs(y))
+    return abs(F(*r.as_integer_ratio()) - y) <= (TOL + extra) * max(abs(F(M)), abs(y))
 
 
 def _frac_ok(num, den, model_q, extra=0):
